@@ -361,6 +361,9 @@ int read_elf(
         strncmp(name, ".data", 5) == 0 ||
         strcmp(name, ".vectors") == 0)
     {
+      // An empty section has no last address.
+      if (elf_shdr.sh_size == 0) { continue; }
+
       if (is_text)
       {
         if (start == 0xffffffff)
